@@ -39,6 +39,10 @@ var schedErrs = [][2]string{
 // scheduler
 
 func schedCase(h *hctx, n, localIdx int) {
+	h.guard("scheduler", map[string]any{"kind": "sched", "n": n, "local": localIdx}, func() { schedCase0(h, n, localIdx) })
+}
+
+func schedCase0(h *hctx, n, localIdx int) {
 	ms := makeCommittee(n, uint64(n))
 	outsider := makeMember(999983)
 	local := outsider
@@ -278,9 +282,14 @@ func legitSender(s *propeller.Scheduler, local, pub peer.ID, i int) (peer.ID, bo
 
 func validatorCase(h *hctx, n, localIdx, pubIdx int, msg []byte, nonce uint64, r *lib.RNG) {
 	seedForReplay := r.Uint64() >> 12
-	r = lib.NewRNG(seedForReplay)
+	h.guard("validator", map[string]any{"kind": "validator", "n": n, "local": localIdx, "publisher": pubIdx, "msg": hx(msg), "nonce": strconv.FormatUint(nonce, 10), "rng": seedForReplay},
+		func() { validatorCase0(h, n, localIdx, pubIdx, msg, nonce, seedForReplay) })
+}
+
+func validatorCase0(h *hctx, n, localIdx, pubIdx int, msg []byte, nonce uint64, seedForReplay uint64) {
+	r := lib.NewRNG(seedForReplay)
 	rp := func(extra map[string]any) map[string]any {
-		m := map[string]any{"kind": "validator", "n": n, "local": localIdx, "publisher": pubIdx, "msg": hx(msg), "nonce": nonce, "rng": seedForReplay}
+		m := map[string]any{"kind": "validator", "n": n, "local": localIdx, "publisher": pubIdx, "msg": hx(msg), "nonce": strconv.FormatUint(nonce, 10), "rng": seedForReplay}
 		for a, b := range extra {
 			m[a] = b
 		}
@@ -326,9 +335,29 @@ func validatorCase(h *hctx, n, localIdx, pubIdx int, msg []byte, nonce uint64, r
 		v := ses.deliver(cloneUnit(&created[i]), sender, "honest-created")
 		h.res.Hit("validate-honest-created:" + outcomeTag(v))
 		if v != "ok" {
-			sig := "validator-rejects-honest-created-unit-" + strings.TrimPrefix(outcomeTag(v), "err:")
-			h.violate(sig, fmt.Sprintf("UnitValidator.Validate rejects unit %d made by CreatePropellerUnits (n=%d, k=%d, p=%d, nonce=%d) from its designated sender: %s",
-				i, n, k, p, nonce, v), rp(map[string]any{"unit": i}))
+			// cause, determined with the public API (not from the error text)
+			u := &created[i]
+			rt := merkle.Hash(u.MessageRoot)
+			leaf := []byte(u.ShardData[0])
+			if h.cfg.ValidatorLeafProto {
+				leaf = u.ShardData.MarshalProto()
+			}
+			cause := "unexplained"
+			switch {
+			case !u.MerkleProof.Verify(&rt, leaf, uint32(u.ShardIndex)):
+				cause = "leaf-encoding"
+			case propeller.VerifyMessageSignature(pub.pub, &u.MessageRoot, &u.CommitteeID, u.Nonce, u.Signature) != nil:
+				cause = "signature-over-own-fields"
+			}
+			sig := "validator-rejects-honest-created-unit-" + cause
+			if cause == "signature-over-own-fields" && uint64(u.Nonce) != nonce &&
+				propeller.VerifyMessageSignature(pub.pub, &u.MessageRoot, &u.CommitteeID, propeller.Nonce(nonce), u.Signature) == nil {
+				// the same defect the e2e section reports: Unit.Nonce is not what was signed
+				sig = "created-unit-nonce-field-not-set-signature-unverifiable"
+			}
+			h.violate(sig,
+				fmt.Sprintf("UnitValidator.Validate rejects unit %d made by CreatePropellerUnits (n=%d, k=%d, p=%d, nonce=%d) from its designated sender: %s",
+					i, n, k, p, nonce, v), rp(map[string]any{"unit": i}))
 		}
 	}
 
@@ -353,7 +382,7 @@ func validatorCase(h *hctx, n, localIdx, pubIdx int, msg []byte, nonce uint64, r
 		v := ses.deliver(cloneUnit(&good[i]), sender, "wellformed")
 		h.res.Hit("validate-wellformed:" + outcomeTag(v))
 		if v != "ok" {
-			h.violate("validator-rejects-wellformed-unit-"+strings.TrimPrefix(outcomeTag(v), "err:"),
+			h.violate("validator-rejects-wellformed-unit",
 				fmt.Sprintf("UnitValidator.Validate rejects a well-formed unit %d (n=%d): %s", i, n, v), rp(map[string]any{"unit": i}))
 		}
 		v2 := ses.deliver(cloneUnit(&good[i]), sender, "duplicate")
@@ -518,7 +547,11 @@ func validatorCase(h *hctx, n, localIdx, pubIdx int, msg []byte, nonce uint64, r
 					idx := int(u.ShardIndex)
 					ls, okS := legitSender(ses.sched, local.id, pub.id, idx)
 					harmless := false
+					sigValid := propeller.VerifyMessageSignature(pub.pub, &u.MessageRoot, &u.CommitteeID, u.Nonce, u.Signature) == nil
 					for _, hs := range [][]propeller.Unit{good, other} {
+						if !sigValid {
+							break
+						}
 						if okS && ls == sender && idx < total && u.CommitteeID == cid && u.Publisher == pub.id &&
 							u.MessageRoot == hs[0].MessageRoot && uint64(u.Nonce) == nonce && len(u.ShardData) == 1 &&
 							bytes.Equal(u.ShardData[0], hs[idx].ShardData[0]) {
